@@ -311,7 +311,10 @@ class Facts:
     def __init__(self, fdir, crate='bigdecimal'):
         path = os.path.join(fdir, crate + '.json')
         with open(path) as fh:
-            self.raw = json.load(fh)
+            txt = fh.read()
+        # no_std builds print std-facade paths as core:: / alloc::; normalise so rules see one spelling
+        txt = re.sub(r'\b(?:core|alloc)::(?=[a-z_]+::|[A-Z])', 'std::', txt)
+        self.raw = json.loads(txt)
         self.crate = crate
         self.out_dir = self.raw.get('out_dir', '')
         self.fns = {}
@@ -480,11 +483,11 @@ class Facts:
             tramp.append(('std::convert::From', g[1], 'from', g[0]))
         elif d == 'std::convert::TryInto::try_into' and len(g) >= 2:
             tramp.append(('std::convert::TryFrom', g[1], 'try_from', g[0]))
-        elif d == 'core::str::<impl str>::parse' and g:
+        elif d in ('core::str::<impl str>::parse', 'std::str::<impl str>::parse') and g:
             tramp.append(('std::str::FromStr', g[0], 'from_str', None))
         elif d == 'std::string::ToString::to_string' and g:
             tramp.append(('std::fmt::Display', g[0], 'fmt', None))
-        elif d.startswith("core::fmt::rt::Argument::<'_>::new_") and g:
+        elif re.match(r"^(core|std)::fmt::rt::Argument::<'_>::new_", d) and g:
             kind = d.rsplit('new_', 1)[1]
             trn = {'display': 'Display', 'debug': 'Debug', 'lower_exp': 'LowerExp', 'upper_exp': 'UpperExp'}.get(kind)
             if trn:
